@@ -690,6 +690,12 @@ func (u *Unit) contractCall(f *Frame, st *State, con *Contract, callee *ssa.Func
 	for _, e := range con.Ensures {
 		u.assume(st, penv.boolExpr(e.Expr))
 	}
+	for _, d := range con.Defines {
+		// `defines f(args)`: the result is named by an uninterpreted function of the arguments
+		// (the callee is deterministic in them) - an assumption, listed in the evidence
+		u.assume(st, penv.boolExpr(d.Expr))
+		u.extDefault("result of " + cname + " named by an uninterpreted function (deterministic in its arguments): " + d.Text)
+	}
 	if vacuityCalls && !f.pure && len(con.Ensures) > 0 {
 		// the assumed postcondition must not make the continuation unreachable
 		u.vacN++
